@@ -313,6 +313,24 @@ pub fn oracle_c15(c: &AstCase, obs: &mut Obs) -> Verdict {
     for (h, it) in highlighted_all.iter().zip(items.iter()) {
         // every highlighted line is located at or after the start of the item's first line, in order
         let mut from = cursor.max(line_start(it.first));
+        // hint: the column of the `_start` marker (number column subtracted) tells where on that line the region begins; it is
+        // only used when the highlighted text really stands there (the same text may occur earlier on the line: `<tl c> <tl`)
+        {
+            let ls = line_start(it.first);
+            let le = src_x[ls..].find('\n').map(|p| p + ls).unwrap_or(src_x.len());
+            let blk: Vec<&str> = it.block.split('\n').collect();
+            if blk.len() >= 2 {
+                let marker_col = blk[0].chars().take_while(|c| *c == ' ').count();
+                let w = blk[1].chars().count().saturating_sub(src_x[ls..le].chars().count());
+                if let Some(col) = marker_col.checked_sub(w) {
+                    let at = ls + src_x[ls..le].char_indices().nth(col).map(|(b, _)| b).unwrap_or(le - ls);
+                    let first_hl = h.split('\n').find(|l| !l.is_empty()).unwrap_or("");
+                    if at >= from && !first_hl.is_empty() && src_x[at..].starts_with(first_hl) {
+                        from = at;
+                    }
+                }
+            }
+        }
         for hl_line in h.split('\n') {
             if hl_line.is_empty() {
                 continue;
